@@ -2,7 +2,7 @@
 import os
 import re
 
-from engine import cc, lib
+from engine import facts, cc, lib
 from engine.facts import erase, short_loc, CACHE
 from engine.lib import A, qe
 from witness import c09gen
@@ -17,7 +17,7 @@ CLAUSE_MACROS = {
 
 
 def c09a(ctx):
-    gen = os.path.join(CACHE, "gen")
+    gen = facts.gen_dir()
     os.makedirs(gen, exist_ok=True)
     quick = ctx.tier == "quick"
     cfgs = [("clang++", "c++17")] if quick else [(c, s) for c in ("clang++", "g++") for s in ("c++14", "c++17", "c++20")]
